@@ -87,7 +87,7 @@ theorem rowRaw_sqlRow (ct : Coltype) (r : Row) : rowRaw ct (sqlRow r) = rowRaw c
   split <;> rfl
 
 theorem matchesRow_sqlRow (pl : Picklist) (r : Row) : pl.matchesRow (sqlRow r) = pl.matchesRow r := by
-  unfold Picklist.matchesRow rowValue rowValueWith
+  unfold Picklist.matchesRow rowValueP
   rw [rowRaw_sqlRow]
 
 theorem sqlRowPasses_eq (r : Row) (c : Crit) :
